@@ -32,3 +32,25 @@ def canary():
 
 
 R.canaries.append(("stats.py:canary#add-always-moves-left-end", canary))
+
+
+# ---- PhasingStats: the aggregation behind the ALL row (C12: "the ALL row equals the sum of the per-chromosome rows")
+R.declare_class("PhasingStats", {"blocks": LIST(REF("PhasedBlock")), "split_blocks": LIST(REF("PhasedBlock")), "unphased": INT, "variants": INT,
+                                 "heterozygous_variants": INT, "heterozygous_snvs": INT, "phased_snvs": INT})
+_COUNTERS = ["unphased", "variants", "heterozygous_variants", "heterozygous_snvs", "phased_snvs"]
+_SUMS = " and ".join("self.%s == old(self.%s) + old(other.%s)" % (c, c, c) for c in _COUNTERS)
+_CONCAT = ("len(self.{f}) == old(len(self.{f})) + old(len(other.{f})) and "
+           "forall(i, implies(0 <= i and i < old(len(self.{f})), self.{f}[i] is old(self.{f}[i]))) and "
+           "forall(i, implies(0 <= i and i < old(len(other.{f})), self.{f}[old(len(self.{f})) + i] is old(other.{f}[i])))")
+R.contract("PhasingStats.__iadd__", params={"self": REF("PhasingStats"), "other": REF("PhasingStats")}, returns=REF("PhasingStats"),
+           requires=[("distinct", "self is not other")],
+           ensures=[("returns-self", "result is self"), ("counters-add-up", _SUMS),
+                    ("blocks-concatenated", _CONCAT.format(f="blocks")), ("split-blocks-concatenated", _CONCAT.format(f="split_blocks")),
+                    ("other-unchanged", " and ".join("other.%s == old(other.%s)" % (c, c) for c in _COUNTERS))],
+           modifies=["PhasingStats." + f for f in ["blocks", "split_blocks"] + _COUNTERS], props=["C12"])
+for _name, _field, _param in [("add_unphased", "unphased", "unphased"), ("add_variants", "variants", "variants"),
+                              ("add_heterozygous_variants", "heterozygous_variants", "variants"), ("add_heterozygous_snvs", "heterozygous_snvs", "snvs")]:
+    R.contract("PhasingStats." + _name, params={"self": REF("PhasingStats"), _param: INT},
+               ensures=[("adds", "self.%s == old(self.%s) + %s" % (_field, _field, _param))] +
+                       [("keeps-" + c, "self.%s == old(self.%s)" % (c, c)) for c in _COUNTERS if c != _field],
+               modifies=["PhasingStats." + _field], props=["C12"])
